@@ -273,7 +273,7 @@ Proof.
       * destruct (lookup_var x (m_scopes m1)) as [c|]; [|apply R_fail_here].
         eapply R_bind; [apply eval_indexes_out|]. intros [path m2] _. simpl.
         unfold here. destruct (stmt_at code (m_pc m2)); cbn [bind]; [|simpl; apply ext_refl].
-        destruct (lookup_var x (m_scopes m2)) as [c2|]; [|apply R_fail_here].
+        destruct (lookup_var x (m_scopes m2)) as [c2|]; [|exact I].
         eapply (R_bind _ (fun x => x)); [apply assign_path_out|]. intros m3 _. simpl. apply ext_refl.
   - eapply R_bind; [apply Hev|]. intros [v m1] _. simpl. apply ext_refl.
   - simpl. apply ext_refl.
